@@ -40,8 +40,9 @@ FLOAT_TYPES = {'float', 'complex', 'np.float64', 'np.complex128', 'np.double', '
 
 
 class BlockAnalysis:
-    def __init__(self, fi, report, kind):
+    def __init__(self, fi, report, kind, imports=None):
         self.fi = fi
+        self.imports = imports or {}
         self.rep = report
         self.kind = kind                # 'qr' | 'svd'
         p = fi.params
@@ -65,6 +66,17 @@ class BlockAnalysis:
     def ok(self, kind, node, cond, text):
         self.rep(kind, node, bool(cond), text)
         return bool(cond)
+
+    def resolved(self, func):
+        """dotted name of a callee with the module's imports applied (`svd` -> scipy.linalg.svd)"""
+        text = norm(func)
+        head, _, rest = text.partition('.')
+        imp = self.imports.get(head)
+        if imp and imp[0] == 'ext' and head not in ('np', 'numpy'):
+            text = imp[1] + ('.' + rest if rest else '')
+        if text.startswith('numpy.'):
+            text = 'np.' + text[6:]
+        return text
 
     def guard_perm(self, test):
         b = pmatch('np.any(__p - np.arange(len(__q)))', test)
@@ -134,11 +146,16 @@ class BlockAnalysis:
         env = self.env
         if isinstance(t, ast.Tuple):
             # Qsub, Rsub = np.linalg.qr(A[i0:i1, j0:j1], mode='reduced') / usub, ssub, vsub = np.linalg.svd(...)
-            if isinstance(v, ast.Call) and norm(v.func) in ('np.linalg.qr', 'np.linalg.svd'):
+            fname = self.resolved(v.func) if isinstance(v, ast.Call) else None
+            if fname in ('np.linalg.qr', 'np.linalg.svd', 'scipy.linalg.svd'):
                 self.block_read(s, v.args[0])
-                want = 2 if norm(v.func).endswith('qr') else 3
+                want = 2 if fname.endswith('qr') else 3
+                ow = [k for k in v.keywords if k.arg and k.arg.startswith('overwrite_') and
+                      not (isinstance(k.value, ast.Constant) and k.value.value is False)]
+                self.ok('block-call', s, not ow, 'the block factorisation may not destroy its argument (a view of the '
+                        'input matrix whenever no sorting copy was made)')
                 if len(t.elts) != want:
-                    raise AnalysisError(f'{self.fi.qual}: unpacking of `{norm(v.func)}` not recognised')
+                    raise AnalysisError(f'{self.fi.qual}: unpacking of `{fname}` not recognised')
                 names = [norm(x) for x in t.elts]
                 if want == 2:
                     self.sub = {names[0]: 'left', names[1]: 'right'}
